@@ -37,6 +37,46 @@ PENDULUM_CTORS = {
 }
 
 
+NATIVE_CALLEES = ("super().", "datetime.datetime", "datetime.date", "datetime.time", "date", "time", "datetime", "datetime.datetime.", "date.", "time.")
+
+
+def _returns_pendulum(m, cls: str, meths: dict, v: ast.AST, depth: int) -> bool | None:
+    """True: the value is built by a pendulum constructor / helper (possibly through private helpers of the class, followed up to
+    three levels); False: it is a native value (base-class method, native constructor); None: unknown"""
+    v = core.strip_casts(v)
+    if not isinstance(v, ast.Call):
+        return None
+    callee = nun(v.func)
+    if callee in PENDULUM_CTORS or (callee.endswith(".time") and "EPOCH" in callee):
+        return True
+    if callee.startswith("super().") or callee in ("datetime.datetime", "datetime.date", "datetime.time", "date", "time", "datetime") \
+            or callee.startswith(("datetime.datetime.", "datetime.date.", "datetime.time.")):
+        return False
+    # a method of the class itself: self.x(...), cls.x(...), self.__class__.x(...), possibly followed by a method of its result
+    f = v.func
+    chain = []
+    while isinstance(f, ast.Attribute):
+        chain.append(f.attr)
+        f = f.value
+        if isinstance(f, ast.Call):
+            inner = _returns_pendulum(m, cls, meths, f, depth)
+            # x(...).diff(...) / .add(...) ...: a method of a pendulum value that returns pendulum values
+            return inner if chain[-1] in ("diff", "add", "subtract", "set", "on", "at", "replace", "start_of", "end_of", "time", "date", "naive", "in_timezone", "in_tz") or inner is not True else None
+    base = nun(f) if isinstance(f, (ast.Name, ast.Attribute)) else ""
+    if chain and base in ("self", "cls") and depth < 3:
+        names = list(reversed(chain))
+        if names[0] == "__class__":
+            names = names[1:]
+        if len(names) == 1 and names[0] in meths:
+            rs = core.returns(meths[names[0]])
+            vs = [_returns_pendulum(m, cls, meths, r.value, depth + 1) for r in rs if r.value is not None and un(core.strip_casts(r.value)) != "NotImplemented"]
+            if vs and all(x is True for x in vs):
+                return True
+            if any(x is False for x in vs):
+                return False
+    return None
+
+
 def _inventory(ctx) -> None:
     for cls, names in REQUIRED.items():
         m = pmod(core.CLASS_HOME[cls])
@@ -63,7 +103,11 @@ def _inventory(ctx) -> None:
                     pass
                 # chained calls such as DateTime.EPOCH.at(...).add(...).time()
                 ok = callee in PENDULUM_CTORS or (callee is not None and callee.endswith(".time") and "EPOCH" in callee)
-                ctx.ob("OVERRIDE.returns", f"{cls}.{name}/{callee}", ok,
+                verdict = _returns_pendulum(m, cls, meths, v, 0) if not ok else True
+                if verdict is None:
+                    ctx.unverified("OVERRIDE.returns", f"{cls}.{name}/{callee}", f"returns `{un(v)[:70]}`: neither a known pendulum constructor / helper nor a native value", m.loc(ex[2]))
+                    continue
+                ctx.ob("OVERRIDE.returns", f"{cls}.{name}/{callee}", bool(verdict),
                        f"returns `{un(v)[:70]}`; the result of an overridden native method must be built by a pendulum "
                        f"constructor/helper, not handed through from the base class", m.loc(ex[2]))
 
